@@ -881,6 +881,10 @@ def rule_ply_counter(ctx):
 RULES = [("exits", rule_exits), ("ply-counter", rule_ply_counter), ("root-result", rule_root_result), ("permutation", rule_permutation), ("noninterference", rule_noninterference), ("windows", rule_windows), ("cut", rule_cut), ("terminal", rule_terminal)]
 # the two immediate draws of the reference game read the half-move clock and the list of earlier positions: what they read is
 # what the rules of chess say (C03: clock table, accessors, the record of earlier positions)
+# keys stand for positions only as far as comparing two keys compares the whole word (C05.key-identity)
+RULES += engine.premise_rules("c05", ["key-identity"])
+# the search walks a copy of the board: the copy is the same position (C04.clone)
+RULES += engine.premise_rules("c04", ["clone"])
 RULES += engine.premise_rules("c03", ["clock", "accessors", "history-record"])
 
 
